@@ -83,6 +83,11 @@ def eval_case(case):
         fn = getattr(logic, f'mv_{op}')
         if case['out']:
             o = np.full(exp.shape, 0x55, dtype=np.uint8) if case['out'] == 'junk' else np.zeros(exp.shape, dtype=np.uint8)
+            if case['out'] in ('alias0', 'alias1'):
+                # the output array IS one of the operands (in-place update `mv_or(a, b, out=a)`, as NumPy's own ufuncs allow):
+                # it must receive the result computed from the operands' values BEFORE the call
+                j = min(int(case['out'][-1]), len(arrs) - 1)
+                if arrs[j].shape == exp.shape: o = arrs[j]
             try:
                 r = fn(*arrs, out=o)
             except Exception as ex:
@@ -149,7 +154,7 @@ def oracle(ck, scale):
                 s = [1 if rng.random() < 0.3 else d for d in s]
             shapes.append(s)
         cases.append({'kind': 'mv_shape', 'op': op, 'shapes': shapes, 'seed': rng.randint(0, 2**31 - 1),
-                      'out': rng.choice([None, None, 'zeros', 'junk'])})
+                      'out': rng.choice([None, None, 'zeros', 'junk', 'alias0', 'alias1'])})
     for it in range(60 * scale):
         op = rng.choice(['not', 'and', 'or', 'xor', 'buf'])
         k = 1 if op in ('not', 'buf') else rng.randint(1, 4)
